@@ -61,7 +61,7 @@ def work(job):
         if budget and len(sel) > budget:
             import random
             sel = sorted(random.Random(chk.seed() * 31 + n).sample(sel, budget))
-        finds = []
+        finds = relcmp.rel_start(la, lb, st)
         for sidx in sel:
             for alloc in stepcmp.alloc_masks(lb):
                 finds += relcmp.rel_state(la, lb, sidx, False, alloc, st, idxmap=idxmap)
@@ -94,7 +94,26 @@ def work(job):
         for f in seen.values():
             f['label'] = job['label']; f['cname'] = job['cname']; f['flags'] = list(cb.flags)
             f['cfg_on'] = sorted(k for k, v in cb.cfg.items() if v and not k.startswith(('DEBUG', 'VERBOSE')))
-            calls = [('end',)] if f['sym'] == 'end' else [('feed', [f['byte']])]
+            calls = [] if f.get('start_only') else [('end',)] if f['sym'] == 'end' else [('feed', [f['byte']])]
+            if f.get('start_only'):
+                # replay: both builds run start() on a struct filled with 0x5a and dump the outputs
+                l1, d1 = replay.run_c(ca, la.layout, {'calls': []})
+                l2, d2 = replay.run_c(cb, lb.layout, {'calls': []})
+                if l1 is None or l2 is None:
+                    f['replay'] = {'reproduced': None, 'note': 'replay build failed ' + (d1 or d2)[:160]}
+                else:
+                    diff = replay.logs_differ(l1, l2, compare_offsets=False)
+                    if diff is None:
+                        # the general comparison reads strings up to their length; after start() the terminator position counts too
+                        r1 = [e for e in l1 if e[0] == 'RET']; r2 = [e for e in l2 if e[0] == 'RET']
+                        if r1 and r2 and r1[0][3] and r2[0][3]:
+                            for k_ in r1[0][3]:
+                                x, y = str(r1[0][3].get(k_)), str(r2[0][3].get(k_))
+                                if ':' in x and ':' in y and 'NULL' not in x and 'NULL' not in y and '?' not in x and '?' not in y and x != y:
+                                    diff = f'after start(): {k_} is {x} in the base build and {y} in the variant (length:bytes/terminator)'
+                    f['replay'] = {'reproduced': diff is not None, 'diff': diff, 'base': l1[:1], 'variant': l2[:1]}
+                out['findings'].append(f)
+                continue
             if f.get('one_sided_fault'):
                 # from start(): the reaching input, then the faulting byte / end()
                 calls = [('feed', list(f['reach']) + ([f['byte']] if f['sym'] != 'end' else []))] + ([('end',)] if f['sym'] == 'end' else [])
